@@ -292,6 +292,12 @@ def run(ctx):
         ctx.run(f"C12.sortable.{name}", blocky, chunk=50, rule=None)
     for name in COUNTS:
         ctx.run(f"C12.count.{name}", blocky, chunk=50, rule=None)
+    # inputs that need more than a thousand passes (an implementation whose depth grows with the number of passes,
+    # or a counter that overflows, only shows here); pop-stack only: the library's stack sort is itself recursive
+    # on the position of the maximum and exceeds CPython's recursion limit near length 1000 (observation)
+    many = [Perm(list(range(1, n)) + [0]) for n in (1100, 1300)] + [Perm([n - 1] + list(range(n - 1))) for n in (1101,)]
+    ctx.run("C12.count.count_pop_stack_sorts", many, chunk=1, rule=None)
+    ctx.rules.append("C12.count.count_pop_stack_sorts additionally on three permutations of length 1100-1300 that need > 1000 passes")
     ctx.rules.append(f"C12.op.* / C12.sortable.* / C12.count.* additionally on {len(blocky)} seeded block-structured "
                      "permutations of length 9-20 (direct/skew sums of blocks of length <= 6)")
 
